@@ -31,7 +31,7 @@ FORMS = [
     ("two-triples-one-line", ["'''a''' + \"\"\"b\"\"\""], None),
     ("four-quotes", ["''''x'''"], None),
     ("multiline-triple-dq", ['"""p', "   q", '\tr"""'], None),
-    ("multiline-triple-sq", ["'''p", "q '''"], None),
+    ("multiline-triple-sq", ["'''p", "             q '''"], None),  # interior line indented deeper than any margin
     ("multiline-triple-split", ['"""', "        q", '""" + \'z\''], None),
     ("multiline-triple-with-hash", ['"""# p', "#q\"\"\""], None),
     ("multiline-triple-dq-containing-triple-sq", ['"""it\'s \'\'\'', '  x"""'], None),
